@@ -1290,6 +1290,12 @@ impl<'l> CelCompiler<'l> {
             Some(TokenWithLoc {
                 token: Token::IntLit(val),
                 loc,
+            }) if val > i64::MAX as u64 => Err(SyntaxError::from_location(loc.start())
+                .with_message(format!("Integer literal {} is out of range", val))
+                .into()),
+            Some(TokenWithLoc {
+                token: Token::IntLit(val),
+                loc,
             }) => Ok((
                 CompiledProg::with_const((val as i64).into()),
                 AstNode::new(
